@@ -305,8 +305,12 @@ def prog_text(pid, pins, lines, vecs):
 # --------------------------------------------------------------------------
 
 def run_tool(exe, path, timeout):
-    rc, out = V.run([exe, str(path)], timeout=timeout)
-    return rc, out
+    # (own copy of V.run: a crashing harness may print bytes that are not UTF-8)
+    try:
+        p = subprocess.run([exe, str(path)], capture_output=True, timeout=timeout)
+        return p.returncode, p.stdout.decode("utf8", "replace") + p.stderr.decode("utf8", "replace")
+    except subprocess.TimeoutExpired as ex:
+        return 124, (ex.stdout or b"").decode("utf8", "replace") + "\n[timeout]"
 
 
 def run_all(harness, driver, progs, tag, timeout=900):
